@@ -161,6 +161,7 @@ class Ctx:
         self.prop, self.task, self.tier, self.seed = prop, task, tier, seed
         self.findings = load_known_findings() if findings is None else findings
         self.evaluations = 0
+        self.heartbeat = 0
         self.labels = collections.Counter()
         self.digests = set()
         self.exhaustive_nontrivial = 0
@@ -387,8 +388,9 @@ def _install_watchdog(ctx):
     state = {"last": -1, "stalled": 0}
 
     def tick(signum, frame):
-        if ctx.evaluations != state["last"]:
-            state["last"], state["stalled"] = ctx.evaluations, 0
+        beat = ctx.evaluations + getattr(ctx, "heartbeat", 0)
+        if beat != state["last"]:
+            state["last"], state["stalled"] = beat, 0
             return
         state["stalled"] += STALL_TICK
         if state["stalled"] >= STALL_S:
@@ -692,8 +694,39 @@ def run_fuzz_campaign(ctx, target, runs, seed, empty_corpus=False):
                    PYTHONPATH=deps + os.pathsep + VERIF_DIR + os.pathsep + os.environ.get("PYTHONPATH", ""))
         cmd = [sys.executable, "-m", "vf.fuzz.run", target, "--runs", str(runs), "--seed", str(seed % (2 ** 31) or 1),
                "--out", out] + (["--empty-corpus"] if empty_corpus else [])
-        r = subprocess.run(cmd, cwd=VERIF_DIR, env=env, capture_output=True, text=True)
+        # the campaign runs for minutes in a child process: poll it, and let its heartbeat file feed this task's
+        # stall guard (which only sees oracle evaluations made in this process)
+        errf = open(os.path.join(out, "stderr.txt"), "w+")
+        child = subprocess.Popen(cmd, cwd=VERIF_DIR, env=env, stdout=subprocess.DEVNULL, stderr=errf, text=True)
+        hb, last, last_t, killed = os.path.join(out, "heartbeat"), None, time.time(), False
+        while child.poll() is None:
+            time.sleep(1.0)
+            try:
+                with open(hb) as fh:
+                    cur = fh.read()
+            except OSError:
+                cur = None
+            if cur != last:
+                last, last_t = cur, time.time()
+                ctx.heartbeat += 1
+            elif time.time() - last_t > 2 * STALL_S:
+                child.kill()
+                killed = True
+            elif time.time() - last_t < STALL_S / 2:
+                ctx.heartbeat += 1            # start-up (imports, corpus) and single slow executions
+        child.wait()
+        errf.seek(0)
+        stderr_tail = errf.read()[-1500:]
+        errf.close()
+
+        class _R:
+            returncode = child.returncode
+            stderr = stderr_tail
+        r = _R()
         path = os.path.join(out, "summary.json")
+        if killed:
+            ctx.note(f"fuzz campaign {target}: no execution finished for {2 * STALL_S}s; campaign stopped (inconclusive)")
+            ctx.label("fuzz:stopped_by_the_stall_guard")
         if not os.path.exists(path):
             raise HarnessError(f"fuzz campaign produced no summary: {r.stderr[-1500:]}")
         with open(path) as fh:
@@ -711,7 +744,7 @@ def run_fuzz_campaign(ctx, target, runs, seed, empty_corpus=False):
             ctx.samples.append({"tag": "atheris", "case": smp.get("case")})
         for v in s["violations"]:
             ctx.violations.append(v)
-        if r.returncode != 0 and not s["violations"]:
+        if r.returncode != 0 and not s["violations"] and not killed:
             raise HarnessError(f"fuzz process exited {r.returncode} without a recorded violation: {r.stderr[-1500:]}")
     finally:
         shutil.rmtree(out, ignore_errors=True)
